@@ -160,6 +160,17 @@ def compare_step(case: Dict[str, Any], py: Dict[str, Any], rs: Dict[str, Any], i
         space = "imem" if all(m[0] >= 0x100000 for m in memdiff) else ("emem" if all(m[0] < 0x100000 for m in memdiff) else "mixed")
         diffs.append(f"mem[{space}]:" + "+".join(kind))
         details.append("mem " + ", ".join(f"{a:#x}: py={x:#04x} rs={y:#04x}" for a, x, y, _, _ in memdiff[:6]))
+    near_top = (py.get("pc", 0) & 0xFFFFF) >= 0xFFFF0
+    pw = [d for d in diffs if d.startswith("power:")]
+    if pw and not near_top:
+        # The low-power state is not an address phenomenon: a data access at the first/last byte of a space (HALT and
+        # OFF always write SSR = 0x1000FF) or a window alias cannot explain it, so it is reported on its own and never
+        # filed under the @edge / @alias classes (only a fetch at the top of memory can make the cores decode
+        # different instructions, see @fetch-top).
+        out.append(Violation("power", where, "; ".join(pw), case,
+                             "; ".join(d for d in details if d.startswith("power "))))
+        diffs = [d for d in diffs if not d.startswith("power:")]
+        details = [d for d in details if not d.startswith("power ")]
     if diffs:
         sub = ",".join(sorted(d.split(":")[0] for d in diffs))
         if touches_edge(py, rs, py.get("pc")):
